@@ -302,5 +302,25 @@ func RemoveAll(def Definition, repo repository.ClockedRepo) error {
 			return err
 		}
 	}
+
+	// Also remove the remote-tracking references of the entities that don't exist locally
+	// (fetched but never merged, or removed locally only).
+	remotes, err := repo.GetRemotes()
+	if err != nil {
+		return err
+	}
+	for remote := range remotes {
+		refs, err := repo.ListRefs(fmt.Sprintf("refs/remotes/%s/%s/", remote, def.Namespace))
+		if err != nil {
+			return err
+		}
+		for _, ref := range refs {
+			err = repo.RemoveRef(ref)
+			if err != nil {
+				return err
+			}
+		}
+	}
+
 	return nil
 }
